@@ -57,6 +57,7 @@ def run(ctx):
     from . import codecs as C
 
     C.check_endian_delegation(ctx, P)
+    C.check_reader_rejections(ctx, P, only=("SecretKey", "PublicKey", "Signature"), floor=1)
     R.check_scalar_importer_rejects(ctx, "E4.import-total", P)
     # 3. exit census of the signing path
     roots = [P.fns.get(k) for k in ("SecretKey<C>::sign",)]
@@ -93,6 +94,13 @@ def run(ctx):
 
     for fk in ("helpers::pairing_g1_g2", "helpers::pairing_g2_g1"):
         check_pipeline(ctx, P, fk)
+    F.check_message_blind_control(ctx, "E6.msg-blind", P, ["SecretKey<C>::sign", "SecretKeyShare<C>::sign", "Signature<C>::verify"], floor=4)
+    # 3b. "signing succeeds" / "verifies": no abort-capable site on the honest path is left undischarged (both profiles)
+    from . import aborts as A
+
+    roots = ["SecretKey<C>::sign", "Signature<C>::verify", "SecretKey<C>::public_key", "SecretKey<C>::from_hash", "<SecretKey<C> as TryFrom<&[u8]>>::try_from", "<PublicKey<C> as TryFrom<&[u8]>>::try_from", "<Signature<C> as TryFrom<&[u8]>>::try_from", "<Vec<u8> as From<&SecretKey<C>>>::from", "<Vec<u8> as From<&PublicKey<C>>>::from", "<Vec<u8> as From<&Signature<C>>>::from"]
+    A.check_aborts(ctx, "E8", P, roots, scope="C01")
+    A.check_aborts(ctx, "E8", ctx.prog("blst", "nodebug"), roots, scope="C01", profile="nodebug")
     # 4. determinism
     F.check_no_effects(ctx, "E7.deterministic", P, DETERMINISTIC, allow_clock=False)
     # 6. secret-key byte import = exact zero rejection
